@@ -27,8 +27,8 @@ CLAIMED = {
    "DESIGN.md §6 C03",
    "Lean kernel; axioms propext/Classical.choice/Quot.sound only; hand-written model tied by correspondence; byte-level matching modelled at character level; hook H1 trusted to print the state faithfully.",
    "Lean 4 model of ParserState + invariant proofs + snapshot correspondence on random call trees (hook H1), memchr on/off"),
- "C04": ("other",
-   "Lean 4 model of PairsBuilder::push_node and of the index-window views (Pairs, Pair, FlatPairs, Tokens, Pairs::single) and renderers (Display, alternate Display, Debug, JSON), every queue index / unreachable!/usize subtraction an explicit panic outcome; specification = list operations on the forest itself; theorems stated and being proved (build_encodes, pairs_new, pairs_next/nextBack, pairs_interleave, flat_interleave, tokens_interleave, pair_views, pairs_strings, pairs_render); tied to the code by correspondence on random forests x random interleaved view scripts (pretty-print build, JSON parsed back), with the forest-based oracle also evaluated on the implementation.",
+ "C04": ("proof",
+   "Lean 4 model of PairsBuilder::push_node and of the index-window views (Pairs, Pair, FlatPairs, Tokens, Pairs::single) and renderers (Display, alternate Display, Debug, JSON), every queue index / unreachable!/usize subtraction an explicit panic outcome; specification = list operations on the forest itself; 17 kernel-checked theorems: parse_queue_wf (every run of any call tree from a fresh state leaves a balanced, nested, boundary-aligned token forest), parse_pairs_new, build_encodes, pairs_new, pairs_nil/next/nextBack, pair_views, pairs_interleave, flat_interleave, tokens_interleave (any interleaving of next/next_back with len), pairs_strings, pairs_render (+_partial, _nested, pairs_json_sound), nested_children; tied to the code by correspondence on random forests x random interleaved view scripts (pretty-print build, JSON parsed back), with the forest-based oracle also evaluated on the implementation.",
    "DESIGN.md §6 C04",
    "Lean kernel; axioms propext/Classical.choice/Quot.sound only; hand-written model tied by correspondence; Debug/JSON escaping modelled for the generated alphabet.",
    "Lean 4 model of the iterator windows + refinement to list operations on the forest + random-script correspondence with pest::iterators"),
